@@ -1,4 +1,5 @@
 import FitProps.ValueAnyLemmas
+import FitProps.ValueReencodeStrLemmas
 /-!
 # C06 — Protocol values marshal to their declared size and unmarshal to themselves
 
@@ -7,7 +8,7 @@ families `value` / `unm` / `vany`.
 
 PROPERTY THEOREMS (audited by ./check): C06_size_eq_len, C06_marshal_total, C06_marshal_bytes,
 C06_unmarshal_marshal_partial, C06_unmarshal_marshal_full_fails, C06_norm_id, C06_norm_bool, C06_norm_string, C06_norm_strings,
-C06_unmarshal_guard, C06_unmarshal_no_panic, C06_unmarshal_err_iff, C06_unmarshal_bool_array, C06_unmarshal_reencode_partial,
+C06_unmarshal_guard, C06_unmarshal_no_panic, C06_unmarshal_err_iff, C06_unmarshal_bool_array, C06_unmarshal_reencode,
 C06_unmarshal_marshal_actual, C06_readBack_clean, C06_tag, C06_raw_len, C06_no_cross_type, C06_any_roundtrip,
 C06_any_reflect_agrees, C06_any_wrap_unwrap, C06_any_unsupported, C06_any_names_transparent, C06_align_by_type
 
@@ -22,7 +23,7 @@ clean ones (`C06_readBack_clean`). `.string [0x61, 0xFF, 0x62]` ("a\xffb") reads
 
 `typedef.Bool` arrays (finding KF-C01-boolarr, repaired in /repo 5da5106): `UnmarshalValue` clamps the elements of a bool
 ARRAY exactly as `proto.Bool` clamps a single value (`C06_unmarshal_bool_array`), so that what it returned for ANY bytes
-re-marshals and reads back as itself (`C06_unmarshal_reencode_partial`; before the repair `[]typedef.Bool{0x1C}` read back as
+re-marshals and reads back as itself (`C06_unmarshal_reencode`, every base type; before the repair `[]typedef.Bool{0x1C}` read back as
 `{255}`). The round-trip theorem was unaffected (`MarshalAppend` already wrote 255 for such elements).
 
 Known finding KF-C06-1 (F02): `utf8String` drops a well-formed U+FFFD; the round-trip theorem is therefore
@@ -373,24 +374,17 @@ theorem C06_unmarshal_bool_array (bs : List Nat) (a bt : Nat)
 
 example : unmarshal [0x1C, 1, 0, 0xFF, 2] 0 btEnum true true = .ok (.sliceBool [255, 1, 0, 255, 255]) := by decide
 
-/-- the statement below for EVERY base type, strings included -/
-def C06_unmarshal_reencode_full : Prop :=
-  ∀ (bs : List Nat) (a a' bt : Nat) (isBool isArray : Bool) (v : Value), (∀ b ∈ bs, b < 256) →
-    unmarshal bs a bt isBool isArray = .ok v →
-    ∃ bs', marshal v a' = some bs' ∧ unmarshal bs' a' bt isBool isArray = .ok v
-
-/-- **What `UnmarshalValue` returned re-marshals and reads back as itself** (partial: numeric base types; for strings the
-statement `C06_unmarshal_reencode_full` needs that `utf8String` is idempotent on its own output — it is the identity on clean
-strings, `utf8String_clean`, but that its output IS clean is not proved here). For ANY bytes, any of the 16 numeric base
-types, any profile-bool / array flags and any two byte orders `a`, `a'`: the value read from the bytes can be marshalled
-(it is never the invalid value) in byte order `a'`, and reading those bytes under the same base type and flags returns
-that very value — scalars, arrays (a trailing partial element was dropped by the first read), `typedef.Bool` scalars and,
-since /repo 5da5106, `typedef.Bool` arrays. This is the value layer of the last sentence of C01 ("re-encoding what the
-decoder returned gives the same messages"). -/
-theorem C06_unmarshal_reencode_partial (bs : List Nat) (a a' bt : Nat) (isBool isArray : Bool) (v : Value)
-    (hb : ∀ b ∈ bs, b < 256) (hs : bt ≠ btString) (h : unmarshal bs a bt isBool isArray = .ok v) :
+/-- **What `UnmarshalValue` returned re-marshals and reads back as itself.** For ANY bytes, EVERY base type (the 16 numeric
+ones and string), any profile-bool / array flags and any two byte orders `a`, `a'`: the value read from the bytes can be
+marshalled (it is never the invalid value) in byte order `a'`, and reading those bytes under the same base type and flags
+returns that very value — scalars, arrays (a trailing partial element was dropped by the first read), `typedef.Bool` scalars
+and, since /repo 5da5106, `typedef.Bool` arrays; strings and string arrays because what `utf8String` returns is NUL-free valid
+UTF-8 without U+FFFD (`Fit.Utf8.utf8String_good`), on which it is the identity. This is the value layer of the last sentence
+of C01 ("re-encoding what the decoder returned gives the same messages"). -/
+theorem C06_unmarshal_reencode (bs : List Nat) (a a' bt : Nat) (isBool isArray : Bool) (v : Value)
+    (hb : ∀ b ∈ bs, b < 256) (h : unmarshal bs a bt isBool isArray = .ok v) :
     ∃ bs', marshal v a' = some bs' ∧ unmarshal bs' a' bt isBool isArray = .ok v :=
-  unmarshal_reencode bs a a' bt isBool isArray v hb hs h
+  unmarshal_reencode_all bs a a' bt isBool isArray v hb h
 
 /-- non-vacuity: a big-endian uint16 array with a trailing odd byte, re-marshalled little-endian; the former witness of
 KF-C01-boolarr -/
@@ -400,6 +394,10 @@ example : unmarshal [1, 2, 3, 4, 5] 1 btUint16 false true = .ok (.sliceUint16 [0
 example : unmarshal [0x1C, 1] 0 btEnum true true = .ok (.sliceBool [255, 1]) ∧
     marshal (.sliceBool [255, 1]) 0 = some [255, 1] ∧
     unmarshal [255, 1] 0 btEnum true true = .ok (.sliceBool [255, 1]) := by decide
+/-- … and bytes that are not UTF-8 with an embedded U+FFFD, an empty segment and an unterminated tail, read as a string array -/
+example : unmarshal [0x61, 0xFF, 0x62, 0, 0, 0xEF, 0xBF, 0xBD, 0x63, 0, 0x64] 0 btString false true = .ok (.sliceString [[0x61, 0x62], [0x63]]) ∧
+    marshal (.sliceString [[0x61, 0x62], [0x63]]) 0 = some [0x61, 0x62, 0, 0x63, 0] ∧
+    unmarshal [0x61, 0x62, 0, 0x63, 0] 0 btString false true = .ok (.sliceString [[0x61, 0x62], [0x63]]) := by decide
 
 /-! ### tags and accessors -/
 
